@@ -857,7 +857,7 @@ fn cases(tier: Tier) -> Vec<Case> {
                 }
             }
         }
-        let mut ns = vec!["0", "1", "2", "101", "4294967296", "+5", "05", "1.5", "", "-1", "1e1"];
+        let mut ns = vec!["0", "1", "2", "101", "4095", "4096", "4097", "8193", "4294967296", "4294967297", "+5", "05", "1.5", "", "-1", "1e1"];
         if tier == Tier::Thorough {
             ns.push("99");
             ns.push("100");
